@@ -4,8 +4,8 @@ from __future__ import annotations
 import ast
 from typing import Dict, List, Optional, Set, Tuple
 
-from ..cfg import CFG
-from ..exprnorm import Poly, Rat, norm_test, normalize
+from ..cfg import CFG, path_conditions
+from ..exprnorm import Poly, Rat, conj_test, norm_test, normalize
 from ..report import Run
 from ..src import AnalysisError, ClassInfo, FuncInfo, Program, call_name, stmt_key, walk_no_nested
 from . import c01, c04, c06
@@ -72,10 +72,14 @@ def _static_lengths(prog: Program, run: Run) -> None:
             raise AnalysisError(f"StandardLengthType.{m}: atomic call not found")
         bl = _kw(calls[0], "bit_length")
         enc_bl = ast.unparse(bl) if bl is not None else None
+        want_cond = norm_test(ast.parse("self.bit_mask is not None and self.is_condensed",
+                                        mode="eval").body)
         for r in [x for x in walk_no_nested(g.node) if isinstance(x, ast.Return)]:
-            conds = [ast.unparse(t) for t, p in cfg.branch_conditions(cfg.node_of(r)) if p]
+            # which case a return serves is read off its path condition (canonical form), not
+            # off the way the branches happen to be written
+            pc = conj_test(path_conditions(cfg, cfg.node_of(r)))
             got = ast.unparse(r.value)
-            label = "condensed BIT-MASK" if any("is_condensed" in c for c in conds) else "plain"
+            label = "condensed BIT-MASK" if pc == want_cond else "plain"
             if got == enc_bl:
                 run.ok(R, f"StandardLengthType.{m}", f"{label}: static length `{got}` is the "
                        "bit_length handed to the atomic codec", f"{g.module.rel}:{r.lineno}")
